@@ -2,7 +2,7 @@
    nowrite L p : p never calls write, and every value it can return satisfies L;
    acct Q P w p : p, having written w bytes so far, returns a with w' bytes written where Q a w', and at every point where the
                   interpreter may stop it (end of input) the count satisfies P. *)
-From Coq Require Import List NArith Lia.
+From Coq Require Import List NArith Arith Lia.
 Import ListNotations.
 From MSP Require Import Base.Src.
 Local Open Scope N_scope.
@@ -84,7 +84,7 @@ Inductive leaves {A : Type} (H : N -> Prop) (L : A -> Prop) : sprog A -> Prop :=
 | lv_ret a : L a -> leaves H L (SRet a)
 | lv_next k : (forall b, leaves H L (k b)) -> leaves H L (SDo SNext k)
 | lv_avail k : (forall u, leaves H L (k u)) -> leaves H L (SDo SAvail k)
-| lv_copy n k : (forall l, leaves H L (k l)) -> leaves H L (SDo (SCopyIn n) k)
+| lv_copy n k : (forall l, length l = n -> leaves H L (k l)) -> leaves H L (SDo (SCopyIn n) k)
 | lv_write d k : (forall u, leaves H L (k u)) -> leaves H L (SDo (SWrite d) k)
 | lv_hint k : (forall h, H h -> leaves H L (k h)) -> leaves H L (SDo SHint k).
 Lemma leaves_sbind {A B} (H : N -> Prop) (L1 : A -> Prop) (L2 : B -> Prop) (p : sprog A) (f : A -> sprog B) :
@@ -92,13 +92,19 @@ Lemma leaves_sbind {A B} (H : N -> Prop) (L1 : A -> Prop) (L2 : B -> Prop) (p : 
 Proof. intros Hp Hf. induction Hp; cbn [sbind]; auto; constructor; auto. Qed.
 Lemma leaves_weaken {A} (H : N -> Prop) (L L' : A -> Prop) (p : sprog A) : leaves H L p -> (forall a, L a -> L' a) -> leaves H L' p.
 Proof. intros Hp HL. induction Hp; constructor; auto. Qed.
+Lemma take_len rule : forall n s acc l s', ideal_take rule n s acc = SVal (l, s') -> length l = (n + length acc)%nat.
+Proof.
+  induction n as [|n IH]; intros s acc l s' T; cbn [ideal_take] in T.
+  - inversion T; subst. rewrite rev_append_rev, app_nil_r, rev_length. reflexivity.
+  - unfold ideal_next in T. destruct (irest s) as [|b r0]; [discriminate|]. apply IH in T. cbn [length] in T. lia.
+Qed.
 Lemma leaves_run {A} (H : N -> Prop) (L : A -> Prop) rule hint (p : sprog A) : H hint -> leaves H L p -> forall s a s', ideal rule hint p s = (SVal a, s') -> L a.
 Proof.
   intros Hh Hp. induction Hp as [a La|k Hk IH|k Hk IH|n k Hk IH|d k Hk IH|k Hk IH]; intros s a' s' E; cbn [ideal] in E.
   - inversion E; subst. exact La.
   - unfold ideal_next in E. destruct (irest s) as [|b r0]; [discriminate|]. exact (IH _ _ _ _ E).
   - destruct (irest s) as [|b r0]; [discriminate|]. exact (IH _ _ _ _ E).
-  - destruct (ideal_take rule n s []) as [[l s1]|e]; [|discriminate]. exact (IH _ _ _ _ E).
+  - destruct (ideal_take rule n s []) as [[l s1]|e] eqn:T; [|discriminate]. apply take_len in T. cbn [length] in T. rewrite Nat.add_0_r in T. exact (IH _ T _ _ _ E).
   - exact (IH _ _ _ _ E).
   - exact (IH _ Hh _ _ _ E).
 Qed.
